@@ -10,6 +10,7 @@ MCAnswers     == {"ok", "ok-2xx", "ct-bad", "id-mismatch", "id-missing", "bad-js
                   "redir-samehost", "redir-otherhost", "redir-http", "redir-http-ip", "redir-https-ip"}
 MCKeyClasses  == {"valid", "invalid"}
 MCMetas       == {"nil", "false", "true"}
+MCBuilds      == {"before-strict", "after-strict"}
 
 \* every terminal state = one fully decided case: the case, the predicted verdict and the predicted set of fetches
 Emit == Terminal => PrintT(ToJson([case |-> c, outcome |-> outcome, docid |-> docid, why |-> why, rt |-> rt,
